@@ -1008,9 +1008,9 @@ CONTROLS = (("SSEMC_ctl_swallow.cfg", "ReorgCovered", "de-duplication by epoch (
             ("SSEMC_ctl_live.cfg", "temporal", "liveness control: a client that got a 503 is never connected again (as coded)"))
 QUICK_MC = ["SSEMC_frame.cfg", "SSEMC_reorg.cfg", "SSEMC_mixed.cfg", "SSEMC_life.cfg", "SSEMC_gossip.cfg", "SSEMC_gossip_either.cfg",
             "SSEMC_split.cfg", "SSEMC_contract.cfg", "SSEMC_contract_reorg.cfg", "SSEMC_live.cfg", "SSEMC_live_ascoded.cfg"]
-THOROUGH_MC = ["SSEMC_frame_thorough.cfg", "SSEMC_reorg_thorough.cfg", "SSEMC_mixed.cfg", "SSEMC_life_thorough.cfg", "SSEMC_gossip.cfg",
-               "SSEMC_gossip_either.cfg", "SSEMC_split.cfg", "SSEMC_contract.cfg", "SSEMC_contract_reorg.cfg", "SSEMC_live.cfg",
-               "SSEMC_live_ascoded.cfg"]
+THOROUGH_MC = ["SSEMC_frame_thorough.cfg", "SSEMC_reorg_thorough.cfg", "SSEMC_mixed_thorough.cfg", "SSEMC_life_thorough.cfg",
+               "SSEMC_gossip_thorough.cfg", "SSEMC_gossip_either.cfg", "SSEMC_split.cfg", "SSEMC_contract_thorough.cfg", "SSEMC_contract_reorg.cfg",
+               "SSEMC_live.cfg", "SSEMC_live_ascoded.cfg"]
 GENS = ["SSEGen.cfg", "SSEGen_life.cfg", "SSEGen_reorg.cfg"]
 
 
@@ -1029,7 +1029,7 @@ def design_check(o, tier, seed):
     jobs += [("SSEMC", c, dict(workers=WORKERS or (4 if thorough else 2))) for c in mains]
     jobs += [("SSEMC", c, dict(workers=1)) for c, _, _ in controls]
     dirs = [vlib.scratch(o.pid, FAMILY) for _ in jobs]
-    ex = ThreadPoolExecutor(max_workers=len(jobs))
+    ex = ThreadPoolExecutor(max_workers=int(os.environ.get("VERIF_SSE_JOBS", "8")))
     futs = [ex.submit(vlib.tlc, o.pid, FAMILY, j[0], j[1], timeout=1700, sdir=d, **j[2]) for j, d in zip(jobs, dirs)]
     hists, seen = [], set()
     for f in futs[:len(GENS)]:
@@ -1050,7 +1050,7 @@ def design_check(o, tier, seed):
             vlib.require_mc_ok(r, cfg)
             o.add_mc("SSE/" + cfg[:-4], r)
         for (cfg, inv, what), r in zip(controls, res[len(mains):]):
-            got = r.violation
+            got = r.violation or ("temporal" if "Temporal property AlwaysBack was violated" in r.out else None)
             if got != inv:
                 raise vlib.Infra("design-spec control failed: '%s' not caught by %s: %s" % (what, inv, r.summary()))
             o.selftests.append({"control": "SSE spec variant '%s' violates %s" % (what, inv), "rejected_as_required": True})
